@@ -34,7 +34,7 @@ Proof.
     - intros Hc. rewrite peekAll_del_other by discriminate. now apply H2. }
   beq_case c strContentEncoding E3; [split; assumption|].
   beq_case c strConnection E4.
-  { subst c. destruct (beq strClose v).
+  { subst c. destruct (hasHeaderValue v strClose).
     - split; cbn.
       + intros X HX. rewrite peekAll_del_other by (apply rstored_not_conn; exact HX). now apply H1.
       + intros _. apply peekAll_del_same.
@@ -173,7 +173,7 @@ Proof.
     - intros X HX. rewrite peekAll_del_other; [now apply H1|]. intros ->. cbn in HX. repeat (destruct HX as [HX|HX]; [discriminate HX|]). contradiction.
     - intros Hc. rewrite peekAll_del_other by discriminate. now apply H2. }
   beq_case c strConnection E4.
-  { subst c. destruct (beq strClose v).
+  { subst c. destruct (hasHeaderValue v strClose).
     - split; cbn.
       + intros X HX. rewrite peekAll_del_other by (apply qstored_not_conn; exact HX). now apply H1.
       + intros _. apply peekAll_del_same.
